@@ -406,6 +406,9 @@ def _calls(repo, rep):
                   "global is not replaced by using a macro  [shared with "
                   "C05 R05.3]", construct="macro-merge-overwrites-shadow",
                   where=L.where(g))
+    # the same for a slot filler, seen from the macro body that calls it
+    from .c05 import _filler_merge
+    L.borrow(repo, rep, "R09.3", "C05", _filler_merge, ("filler-merge-out",))
     # the symbols 'macros' / 'template' of a macro body are those of the
     # template that defines it: they are compiled as builtins and looked up
     # in the variable scope first, and the scope is copied into every macro
